@@ -31,4 +31,14 @@ impl<I: Iterator, F: Fn(I::Item) -> ControlFlow<I::Item, I>> Iterator for Stack<
             }
         }
     }
+
+    /// An empty stack yields nothing more; tell so, such that
+    /// an enclosing stack does not keep this one after its last item.
+    fn size_hint(&self) -> (usize, Option<usize>) {
+        if self.0.is_empty() {
+            (0, Some(0))
+        } else {
+            (0, None)
+        }
+    }
 }
